@@ -63,6 +63,15 @@ fn flow<S: Sch>(cfg: &KeyCfg, seed: u64, big: Option<S::P>) -> Result<Outputs, S
         let d = check_single::<S>(&keys, &comms[..2], &labels[0].1, &s.values, &s.proof, 0, seed, 0);
         out.push(("single-decision".into(), d.class().as_bytes().to_vec()));
     }
+    // structured points (coordinates 0 and 1): tensors and powers with zero entries
+    for (pn, z) in S::points(cfg, seed).into_iter().filter(|(n, _)| n == "0" || n == "zeros" || n == "mixed" || n == "ones") {
+        if let Ok(s) = open_single::<S>(&keys, &c, &[0], &z, 0, seed, 0) {
+            let bp: BPf<S> = vec![s.proof.clone()].into();
+            out.push((format!("proof@{}", pn), ser(&bp)));
+            let d = check_single::<S>(&keys, &comms[..1], &z, &s.values, &s.proof, 0, seed, 0);
+            out.push((format!("decision@{}", pn), d.class().as_bytes().to_vec()));
+        }
+    }
     Ok(out)
 }
 
